@@ -62,6 +62,9 @@ func MPDDiff(mpdOld, mpdNew []byte) (doc *etree.Document, expiration time.Time, 
 	}
 	oldRoot := dOld.Root()
 	newRoot := dNew.Root()
+	if oldRoot == nil || newRoot == nil {
+		return nil, expiration, fmt.Errorf("old or new MPD has no root element")
+	}
 
 	expiration, err = checkPatchConditions(oldRoot, newRoot)
 	if err != nil {
